@@ -1222,7 +1222,11 @@ func (self *LockManager) ProcessRecoverLockData(lock *Lock) {
 	}
 	recoverData, recoverValue := lock.data.recoverData, lock.data.recoverValue
 
-	switch currentData.commandType {
+	commandType := currentData.commandType
+	if recoverValue == nil && commandType != protocol.LOCK_DATA_COMMAND_TYPE_SET && commandType != protocol.LOCK_DATA_COMMAND_TYPE_UNSET {
+		commandType = protocol.LOCK_DATA_COMMAND_TYPE_PIPELINE // no operand recorded: the value operation was a pipeline, its undo is the cell saved before it
+	}
+	switch commandType {
 	case protocol.LOCK_DATA_COMMAND_TYPE_SET:
 		if recoverData == nil {
 			self.currentData = NewLockManagerDataUnsetData(false)
